@@ -229,6 +229,7 @@ def check_supported_result(v, res):
 def other_process_hashes(encoded, hashseed):
     env = dict(os.environ)
     env["PYTHONHASHSEED"] = str(hashseed)
+    env["TZ"] = "XTZ+7"   # the other process also lives in another time zone (POSIX spelling: no tz database needed)
     env["PYTHONPATH"] = os.pathsep.join([common.REPO, common.VERIF, os.path.join(common.VERIF, ".deps")])
     p = subprocess.run(
         [sys.executable, "-m", "vf.props.c05", "--child"],
